@@ -71,6 +71,8 @@ static std::string run_plan(const std::string &id, const Plan &plan, bool trace,
 		{
 			Exec ex(plan, trace);
 			ex.run();
+			// debugging aid: QSIM_DUMP_DIR=<dir> copies the simulated disk out at the end of a replay (not used by any check)
+			if (const char *dd = getenv("QSIM_DUMP_DIR")) for (auto &kv : ex.disk()) { std::string n = kv.first; for (char &ch : n) if (ch == '/') ch = '_'; FILE *f = fopen((std::string(dd) + "/" + n).c_str(), "wb"); if (f) { fwrite(kv.second.data(), 1, kv.second.size(), f); fclose(f); } }
 			res = ex.res;
 			if (transcript_out) *transcript_out = ex.transcript;
 		}
